@@ -2,6 +2,7 @@ package ast
 
 import (
 	"bytes"
+	"math"
 
 	"github.com/wundergraph/graphql-go-tools/v2/pkg/internal/unsafebytes"
 	"github.com/wundergraph/graphql-go-tools/v2/pkg/lexer/position"
@@ -43,6 +44,10 @@ func (d *Document) IntValueAsInt32(ref int) (out int32) {
 
 func (d *Document) IntValueValidInt32(ref int) bool {
 	in := d.Input.ByteSlice(d.IntValues[ref].Raw)
+	if d.IntValues[ref].Negative {
+		// Raw holds the digits without the sign, and the negative range reaches one further than the positive one
+		return unsafebytes.BytesIsValidInt64(in) && -unsafebytes.BytesToInt64(in) >= math.MinInt32
+	}
 	return unsafebytes.BytesIsValidInt32(in)
 }
 
